@@ -111,8 +111,61 @@ def check_copy(ctx, env, orig_items, o, how, followup, fn, kind, impl, info, ori
     return bad is None
 
 
+def rejected_first_write(ctx):
+    """An EMPTY container that rejected its first write (unusable key or value) is still the empty container:
+    same state and byte-identical pickles in C and Python, and the copy is sound."""
+    from harness.families import fam, BOUNDS
+    from harness.props.c13 import Plain
+    n = 0
+    for fn in ALL_FAMS:
+        f = fam(fn)
+        for kind in ("BTree", "TreeSet", "Bucket", "Set"):
+            setlike = kind in ("TreeSet", "Set")
+            badkey = "x" if f.kk in BOUNDS else (Plain() if f.kk == "O" else b"abc")
+            goodkey = f.keymap("int" if f.kk == "O" else None).k(3)
+            badval = None if (setlike or f.vk == "O") else ("x" if (f.vk in BOUNDS or f.vk == "F") else b"ab")
+            writes = [("set-badkey", lambda t: t.add(badkey) if setlike else t.__setitem__(badkey, f.valmap().v(1))),
+                      ("update-badkey", lambda t: t.update([badkey] if setlike else [(badkey, f.valmap().v(1))]))]
+            if badval is not None:
+                writes += [("set-badvalue", lambda t: t.__setitem__(goodkey, badval)),
+                           ("setdefault-badvalue", lambda t: t.setdefault(goodkey, badval)),
+                           ("update-badvalue", lambda t: t.update([(goodkey, badval)]))]
+                if kind == "BTree":
+                    writes.append(("insert-badvalue", lambda t: t.insert(goodkey, badval)))
+            for wname, w in writes:
+                res = {}
+                for impl in ("C", "Py"):
+                    t = f.cls(kind, impl)()
+                    try:
+                        w(t)
+                        out = "accepted"
+                    except TypeError:
+                        out = "TypeError"
+                    except Exception as e:  # noqa
+                        out = type(e).__name__
+                    try:
+                        st = t.__getstate__()
+                        pk = [pickle.dumps(t, proto) for proto in (2, 3, 5)]
+                        c = pickle.loads(pk[0])
+                        ok = (len(c) == 0) and not c and list(c.keys()) == []
+                        if kind in ("BTree", "TreeSet"):
+                            c._check()
+                        res[impl] = (out, repr(st), [p.replace(b"Py", b"") for p in pk], ok)
+                    except Exception as e:  # noqa
+                        res[impl] = (out, "raises " + type(e).__name__, None, False)
+                n += 1
+                ctx.count(("rejected-first-write", fn, kind, wname))
+                if res["C"][0] != "accepted" and (res["C"][1:] != res["Py"][1:] or not res["C"][3]):
+                    ctx.oracle_failure("state-after-rejected-first-write:%s" % kind,
+                                       "%s%s: after the rejected first write %s into an empty container: C %s state %s copy-ok=%s; Python %s state %s copy-ok=%s" % (
+                                           fn, kind, wname, res["C"][0], res["C"][1], res["C"][3], res["Py"][0], res["Py"][1], res["Py"][3]),
+                                       {"family": fn, "kind": kind, "write": wname})
+    ctx.cov["rejected_first_writes_compared"] = n
+
+
 def run(ctx):
     rng = ctx.rng
+    rejected_first_write(ctx)
     nh = ctx.n(400, 6000)
     jobs, expect = [], {}
     nbytes_cmp = 0
